@@ -35,7 +35,11 @@ GENERIC = (
     "slippage captured for the factory when both swap limits are given; a zero-commission fast path; swap() picking the pool side "
     "with if/else only; refunds collected with take_while; the guard given gross instead of net return; the chain-level admin "
     "accepted as owner; serde through a borrowed &str (JSON escapes); hand-written multi-limb division; the factory's Pair query "
-    "answering in the caller's order; message order used where pool order is meant"
+    "answering in the caller's order; message order used where pool order is meant; route length limits (5 hops); Display "
+    "abbreviating long identifiers; duplicate CreatePair allowed when the whitelist is empty; a waiver of the funds check when a "
+    "receiver is named; a dust-withdrawal / dust close-out special case; the wire spelling of hook messages; Ord for asset infos "
+    "differing from byte order; a deployer bypass of the whitelist on stand-alone pairs; a reciprocal of a truncated price; "
+    "trimming trailing zeros of a numeral; AssertMinimumReceive accepted when the caller is the receiver"
 )
 
 
